@@ -238,6 +238,70 @@ _add("exits_and_copies", """
     return %m, 32
 """)
 
+# immutables region (memory-backed in the constructor context): istore / iload with distinguishable operands
+_add("immutable_ops", """
+  runtime:
+    %a0 = calldataload 0
+    %a1 = calldataload 32
+    %k = and %a1, 4032
+    %p = add 64, %k
+    istore %a0, %p
+    %q = add %p, 32
+    %a2 = add %a0, 7
+    istore %a2, %q
+    %r = iload %p
+    %r2 = iload %q
+    %s = add %r, %r2
+    %m = alloca 32
+    mstore %m, %s
+    return %m, 32
+""")
+
+# shaped like a constructor with immutables (compare the deploy function of corpus program immut_ctor): immutables
+# written with istore, read back with iload inside a loop and read out at the end; as in the front end's output the immutables live in an
+# alloca (pipeline inputs may not use concrete memory addresses); the final copy of the runtime code is left out
+_add("ctor_immutables", """
+  runtime:
+    %cv = callvalue
+    %nz = iszero %cv
+    assert %nz
+    %imm = alloca 64
+    %a = calldataload 0
+    istore %a, %imm
+    %c = caller
+    %imm1 = add %imm, 32
+    istore %c, %imm1
+    sstore 3, %c
+    %i0 = 0
+    jmp @cond
+  cond:
+    %i = phi @runtime, %i0, @body, %i2
+    %x = xor 3, %i
+    jnz %x, @body, @exit
+  body:
+    %v = iload %imm
+    %t = mul %v, %i
+    %u = mod %t, 1000
+    sstore %i, %u
+    %i2 = add 1, %i
+    jmp @cond
+  exit:
+    %buf = alloca 128
+    %b0 = iload %imm
+    mstore %buf, %b0
+    %b = iload %imm1
+    %a1 = calldataload 32
+    istore %a1, %imm1
+    %b2 = iload %imm1
+    %p1 = add %buf, 32
+    mstore %p1, %b
+    %p2 = add %buf, 64
+    mstore %p2, %b2
+    %p3 = add %buf, 96
+    mstore %p3, %i
+    return %buf, 128
+""")
+
 PIPELINES = {
     "SimplifyCFG": ["SimplifyCFGPass"],
     "SCCP+SimplifyCFG": ["SCCP", "SimplifyCFGPass"],
